@@ -608,21 +608,62 @@ def eff_of(root, scratch, known):
     return {'rules': rules, 'data': content(e['data']) if e.get('data') else None, 'nrules': e.get('nrules')}
 
 
+MISSING_SOURCE = ('  - name: LastYear\n    file: data/bank-2024.csv\n'
+                  '    format: "{date:%Y-%m-%d},{description},{amount}"\n')
+
+
+def c20_files(case):
+    """the concrete budget of a C20 case: the files of the shape, then the case's variations of it —
+    `vf_key`: the settings' mention of views_file is the KEY itself (`views_file: config/views.rules`), not a comment: a reference that
+              dangles when the shape has no views.rules;
+    `missing_source`: a second data source whose statement file does not exist;
+    `extra_files`: files of the user's own inside the budget folder ({rel: text | {'text', 'mode'}})."""
+    files, dirs = shape_files(case['shape'])
+    st = files.get(REL['settings'])
+    if st is not None:
+        if case.get('vf_key'):
+            st = st.replace('# views_file: config/views.rules\n', 'views_file: config/views.rules\n')
+        if case.get('missing_source'):
+            st = st.replace(SETTINGS_HEAD, SETTINGS_HEAD + MISSING_SOURCE)
+        files[REL['settings']] = st
+    return files, dirs
+
+
+def build_extra(root, extra, prefix=''):
+    for rel, spec in (extra or {}).items():
+        txt, mode = (spec.get('text', ''), spec.get('mode')) if isinstance(spec, dict) else (spec, None)
+        build(root, {rel: txt}, [], prefix)
+        if mode is not None:
+            os.chmod(os.path.join(root, prefix, rel), mode)
+
+
+def snapshot_modes(root):
+    """{relpath: permission bits} of every file and directory below root"""
+    import stat
+    out = {}
+    for dp, dns, fns in os.walk(root):
+        for n in dns + fns:
+            p = os.path.join(dp, n)
+            out[os.path.relpath(p, root)] = stat.S_IMODE(os.lstat(p).st_mode)
+    return out
+
+
 def do_c20_case(case, scratch):
-    """a command sequence on a generated budget; audit trace + content hashes before/after each command"""
+    """a command sequence on a generated budget; audit trace + content hashes and permission bits of the WHOLE tree under the working
+    directory before/after each command"""
     root = tempfile.mkdtemp(prefix='tally-c20-')
     try:
         prefix = 'tally' if case.get('layout') == 'new' else ''
-        files, dirs = shape_files(case['shape'])
+        files, dirs = c20_files(case)
         build(root, files, dirs, prefix)
-        for rel, txt in (case.get('extra_files') or {}).items():
-            build(root, {rel: txt}, [], prefix)
+        build_extra(root, case.get('extra_files'), prefix)
+        build_extra(root, case.get('root_files'), '')          # beside the budget folder (new layout: the folder `tally/` lives in)
         steps = []
         for argv in case['commands']:
-            before = snapshot(root)
+            before, before_modes = snapshot(root), snapshot_modes(root)
             so = os.path.join(scratch, 'stdout.txt')
             r = run_forked({'program': 'cli', 'argv': argv, 'cwd': root, 'stdout': so, 'audit': True, 'count': False}, scratch)
-            after = snapshot(root)
+            after, after_modes = snapshot(root), snapshot_modes(root)
             aud = []
             for ev in r.get('audit', []):
                 paths = []
@@ -631,7 +672,9 @@ def do_c20_case(case, scratch):
                         ap = os.path.realpath(os.path.join(root, a))
                         paths.append(os.path.relpath(ap, os.path.realpath(root)) if ap.startswith(os.path.realpath(root) + os.sep) or ap == os.path.realpath(root) else 'OUTSIDE:' + ap)
                 aud.append([ev[0]] + paths)
-            changed = sorted(rel for rel in set(before) | set(after) if before.get(rel, 'absent') != after.get(rel, 'absent'))
+            mode_changed = {rel: [before_modes[rel], after_modes[rel]] for rel in before_modes
+                            if rel in after_modes and before_modes[rel] != after_modes[rel]}
+            changed = sorted(set(rel for rel in set(before) | set(after) if before.get(rel, 'absent') != after.get(rel, 'absent')) | set(mode_changed))
             detail = {}
             for rel in changed:
                 b, a = before.get(rel, 'absent'), after.get(rel, 'absent')
@@ -640,7 +683,9 @@ def do_c20_case(case, scratch):
                                'appended': bool(isinstance(b, bytes) and isinstance(a, bytes) and a.startswith(b)),
                                'moved_to': [r2 for r2, a2 in after.items() if isinstance(b, bytes) and a2 == b and r2 not in before],
                                'kept_elsewhere': any(isinstance(b, bytes) and a2 == b for a2 in after.values())}
-            steps.append({'argv': argv, 'outcome': r['outcome'], 'audit': aud, 'changed': changed, 'detail': detail,
+                if rel in mode_changed:
+                    detail[rel]['mode'] = ['%o' % m for m in mode_changed[rel]]
+            steps.append({'argv': argv, 'outcome': r['outcome'], 'audit': aud, 'changed': changed, 'detail': detail, 'tree_size': len(before),
                           'stdout_head': io.open(so, encoding='utf-8', errors='replace').read()[:300]})
         return {'steps': steps, 'prefix': prefix}
     finally:
